@@ -205,6 +205,15 @@ def normalisation(ctx, rule='C15-R2', rule3='C15-R3'):
                   f'dtype fix-up casts {T.show(v, maxlen=100)} under {T.show(cond, maxlen=100) if cond is not None else None}: the '
                   'cast target must be the very dtype that was tested, on the very column that was tested (else a second '
                   'pass warns again)', instance='cast target = tested dtype, same column')
+        # ... and the cast happens for EVERY column whose dtype differs: the trigger is that inequality and nothing more
+        if trig_ok:
+            lits = guard_literals(cond)
+            extra = [l for l in lits if not (tag(l) == 'cmp' and l[1] == 'ne' and ty in (l[2], l[3]))]
+            ctx.check(not extra, rule3, Q, e.node, e.loc(),
+                      f'the dtype fix-up is skipped unless {T.show(extra[0], maxlen=120) if extra else ""} also holds: a column '
+                      'whose dtype differs from the required one in some other way (float32 for float64, int32 / Int64 for '
+                      'int64) is returned as it came, so that the result does not have the required dtypes',
+                      instance='every column with another dtype than required is cast')
     for e in drops:
         cond = _own_condition(e, evs)
         c = e.call if e.kind == 'mutcall' else e.value
